@@ -64,7 +64,7 @@ def _run(level, cfg, events, var, perm):
                                  async_callbacks=var.get("async_callbacks", False),
                                  wall=var.get("wall", "jump"), atimeout=var.get("atimeout", False),
                                  loop=var.get("loop", False), flavours=var.get("flavours"),
-                                 entry2=var.get("entry2"))
+                                 entry2=var.get("entry2"), sinks=var.get("sinks"))
     # the decorator and the Policy wrappers go through Policy.call, which classifies the raised
     # exception once more
     wrapped = var.get("entry2") or var["entry"].split(".")[0] in ("Policy", "AsyncPolicy", "RetryPolicy",
@@ -255,8 +255,8 @@ def profile(prop: str, **kw) -> None:
 SYNC_ASYNC = [{"entry": "Retry", "permute": False}, {"entry": "AsyncRetry", "permute": True}]
 FOUR = [{"entry": "Retry", "permute": False, "place": "both", "flavours": "all"},
         {"entry": "AsyncRetry", "permute": True, "wall": "back", "flavours": "all"},
-        {"entry": "Retry", "permute": True, "place": "ctor", "wall": "frozen"},
-        {"entry": "AsyncRetry", "permute": False, "place": "ctor", "async_callbacks": True},
+        {"entry": "Retry", "permute": True, "place": "ctor", "wall": "frozen", "sinks": "log"},
+        {"entry": "AsyncRetry", "permute": False, "place": "ctor", "async_callbacks": True, "sinks": "log"},
         {"entry": "AsyncRetry", "permute": True, "place": "both", "async_callbacks": "lambda"}]
 
 TIMEOUT_VARIANTS = [{"entry": "Retry", "atimeout": True, "place": "ctor", "flavours": "all"},
